@@ -755,6 +755,12 @@ func typeStr(t types.Type, pkg *types.Package) string {
 func tryReplay(prog *Program, cs *ContractSet, prop string, r ObResult, rep *Replay, timeout int) {
 	ob := r.Ob
 	x := ob.exec
+	if ob.Concrete != nil {
+		rep.Replayed = *ob.Concrete != ""
+		rep.ReplayLog = "decided by concrete evaluation of the real statements with float64 arithmetic (exhaustive over the stated domain); failing case: " + *ob.Concrete
+		rep.Note = "exhaustive floating-point evaluation of statements taken from /repo's current source"
+		return
+	}
 	if x == nil || x.uc == nil || x.uc.Lemma {
 		rep.ReplayLog = "no replay: the obligation is a pure lemma (no code is executed)"
 		return
